@@ -22,7 +22,7 @@ def component_table(fn):
     raise AnchorLost("no match on std::path::Component in %s" % fn.path)
 
 
-def _enclosed_by_exploration(f, tab):
+def _enclosed_by_exploration(f, tab, maxlen=3):
     """spelling-independent decision of the component walk: bounded exploration (E9) of enclosed_name over EVERY sequence of up to
     three path components (5 kinds each; the iterator's answers are the only unknowns, the depth counter is concrete), compared with
     the reference semantics -- Prefix/RootDir reject, `..` at depth 0 rejects, Normal descends, `.` is ignored, exhaustion accepts.
@@ -30,7 +30,7 @@ def _enclosed_by_exploration(f, tab):
     from engine import sym
     import itertools
     try:
-        res = sym.Sym(f, max_paths=400000).explore(5)
+        res = sym.Sym(f, max_paths=4000000).explore(maxlen + 2)
     except sym.SymTooComplex:
         return False, "too many paths"
     kinds = {v: k for k, v in tab.items()}
@@ -84,7 +84,7 @@ def _enclosed_by_exploration(f, tab):
     traces = [t for t in traces if not t[2]]
     names = [tab[k] for k in sorted(tab)]
     n = 0
-    for L in range(0, 4):
+    for L in range(0, maxlen + 1):
         for s_ in itertools.product(names, repeat=L):
             n += 1
             rj = ref(s_)
@@ -101,7 +101,7 @@ def _enclosed_by_exploration(f, tab):
                 if not hit or any(t[3] != "None" for t in hit):
                     longer = [t for t in traces if len(t[0]) > len(pre) and t[0][:len(pre)] == pre] + [t for t in traces if t[0] == pre and t[1]]
                     return False, "components %s must be rejected at %s; explored: %s" % (list(s_), pre[-1], "walk continues" if longer else "no such path")
-    return True, "%d component sequences (length <= 3) agree with the reference walk" % n
+    return True, "%d component sequences (length <= %d) agree with the reference walk" % (n, maxlen)
 
 
 def enclosed_rules(facts, rep):
@@ -118,7 +118,7 @@ def enclosed_rules(facts, rep):
     if len(tab) != 5:
         adt = (getattr(facts, "adts", None) or {}).get("std::path::Component")
         tab = {0: "Prefix", 1: "RootDir", 2: "CurDir", 3: "ParentDir", 4: "Normal"}
-    good, msg = _enclosed_by_exploration(f, tab)
+    good, msg = _enclosed_by_exploration(f, tab, 5 if rep.tier == "thorough" and rep.cfg is None else 3)
     if good:
         ok = True
         w = where(f, f.span)
